@@ -10,9 +10,12 @@ VERIF=$(cd "$(dirname "$0")/.." && pwd)
 HASH=$( (cd "$REPO" && find src include -type f \( -name '*.c' -o -name '*.h' -o -name 'CMakeLists.txt' \) -print0 | sort -z | xargs -0 sha256sum; echo "$REPO $*") | sha256sum | cut -c1-16)
 OUT=$VERIF/build/$HASH/$FLAV
 if [ -f "$OUT/libss.a" ] && [ -f "$OUT/.done" ]; then echo "$OUT"; exit 0; fi
-# prune old tree-hash dirs (keep the 2 most recent besides this one)
+# prune old tree-hash dirs: keep the 8 most recent besides this one, and never one touched in the last two hours
+# (another check may be running from it)
 mkdir -p "$VERIF/build"
-ls -1dt "$VERIF"/build/*/ 2>/dev/null | grep -v "/$HASH/" | tail -n +3 | xargs -r rm -rf
+for d in $(ls -1dt "$VERIF"/build/*/ 2>/dev/null | grep -v "/$HASH/" | tail -n +9); do
+  [ -n "$(find "$d" -maxdepth 2 -mmin -120 -print -quit 2>/dev/null)" ] || rm -rf "$d"
+done
 rm -rf "$OUT"; mkdir -p "$OUT/obj"
 cat > "$OUT/config.h" <<EOF
 #define HAVE_UNISTD_H
